@@ -1,10 +1,10 @@
 CONSTANTS
   Threads = {1, 2}
-  Routes = {"/a", "/b", "/x"}
+  Routes = {"/a", "/x"}
   Hosts = {0, 1}
-  Files = {"f", "g"}
+  Files = {"f"}
   FileOf <- MCFileOf
-  MCSizes = {0, 1, 2, 3}
+  MCSizes = {1, 2, 3}
   MCIds = {1, 2}
   Payloads <- MCPayloads
   Limit = 2
@@ -12,8 +12,8 @@ CONSTANTS
   Ticks = {1}
   Dev = {}
   RewriteInFlight = FALSE
-  MaxWrites = 3
-  MaxClock = 3
+  MaxWrites = 2
+  MaxClock = 2
 SPECIFICATION SSpec
 CONSTRAINT ClockBound
 VIEW SView
